@@ -18,8 +18,8 @@ import (
 	"strconv"
 	"strings"
 	"sync"
-	"testing"
 	"sync/atomic"
+	"testing"
 	"time"
 )
 
